@@ -246,3 +246,34 @@ V('pd6-verbatim-pos', ['C02'], S,
 V('pd4-partition', ['C02'], P,
   "                    pos = txt.find('\\n') + 1\n                    t2.txt = txt[pos:]\n                    if not t2.pos_fix:\n                        t2.pos += pos",
   "                    pos = txt.find('\\n')\n                    t2.txt = txt[pos + 1:]\n                    if not t2.pos_fix:\n                        t2.pos += pos", 'PD4')
+
+# ---------------------------------------------------------------- OK
+GT = 'yalafi/shell/gentext.py'
+GJ = 'yalafi/shell/genjson.py'
+GX = 'yalafi/shell/genxml.py'
+V('ok1-text-col', ['C14'], GT, "        col = offset - nl + 1", "        col = offset - nl", 'OK1')
+V('ok1-text-line', ['C14'], GT, "lin = tex.count('\\n', 0, offset) + 1", "lin = tex.count('\\n', 0, offset)", 'OK1')
+V('ok1-json-tox', ['C14'], GJ, "priv['tox'] = end - nl + 1", "priv['tox'] = end - nl", 'OK1')
+V('ok1-json-end', ['C14'], GJ, "end = beg + json_get(m, 'length', int) - 1", "end = beg + json_get(m, 'length', int)", 'OK1')
+V('ok1-xmlb-tox', ['C14'], GX, "tox = len(tex[nl:end+1].encode())", "tox = len(tex[nl:end].encode()) + 1", 'OK1')
+V('ok1-neutral-json', ['C14'], GJ, "priv['fromx'] = beg - nl", "priv['fromx'] = -nl + beg", [])
+V('ok1-diag-col', ['C08', 'C14'], U, "    col = pos - nl + 1\n", "    col = pos - nl\n", 'OK1')
+V('ok2-late-own-checks', ['C14'], PR,
+  "            matches += checks.create_single_letter_matches(plain, cmdline)\n",
+  "", [])
+V('ok2-shift-after', ['C14'], PR,
+  "            matches_tot += matches\n            plain_tot += plain\n",
+  "            plain_tot += plain\n            matches_tot += matches\n", [])
+V('ok2-sort-cond', ['C14'], PR,
+  "    matches_tot.sort(key=f)\n", "    if cmdline.multi_language:\n        matches_tot.sort(key=f)\n", 'OK2')
+V('ok2-no-shift', ['C14'], PR,
+  "m['offset'] = json_get(m, 'offset', int) + len(plain_tot)", "m['offset'] = json_get(m, 'offset', int)", 'OK2')
+V('ok4-no-plus1', ['C01', 'C14'], T2,
+  "        pos = [n + 1 for n in pos]\n", "", 'OK4')
+V('ok4-double', ['C01'], T2,
+  "            pos = [0 for n in range(len(txt))]", "            pos = [1 for n in range(len(txt))]", 'OK4')
+V('ok4-ml-cond', ['C01', 'C12'], T2,
+  "    for lang in ml:\n        for part in ml[lang]:\n            part[1]= list(n + 1 for n in part[1])",
+  "    for lang in ml:\n        for part in ml[lang][1:]:\n            part[1]= list(n + 1 for n in part[1])", 'OK4')
+V('ok4-map-minus1', ['C14'], 'yalafi/shell/utils.py',
+  "    offset = abs(charmap[beg]) - 1", "    offset = abs(charmap[beg])", 'OK4')
